@@ -120,7 +120,7 @@ type callSpec struct {
 	x   *Expect
 }
 
-var invalidJSON = []string{`{"a":`, `{'a':1}`, ``, `[1,]`, `nope`, `{"a":1}}`, `{"a" 1}`, " ", `{"b":1,"a":2}{"c":3}`, `[1,2]]`, `{"a":1},`, "{\"a\":1}\n{\"a\":2}", `{"a":01}`, `{"a":1,}`, `"unterminated`}
+var invalidJSON = []string{`{"a":`, `{'a':1}`, ``, `[1,]`, `nope`, `{"a":1}}`, `{"a" 1}`, " ", `{"b":1,"a":2}{"c":3}`, `[1,2]]`, `{"a":1},`, "{\"a\":1}\n{\"a\":2}", `{"a":01}`, `{"a":1,}`, `"unterminated`, "\xef\xbb\xbf{\"a\":1}", "\xef\xbb\xbf[1,2]"}
 var invalidYAML = []string{"a: [1, 2", "a:\n\t- b", "\"unterminated", "{a: 1", "a: b: c", "defaults: *base\nname: svc\n", "a: &x 1\n---\nb: *y\n", "a: &x 1\nb: *y\n"}
 
 func (g *fgen) call(apis []string, cfgs []string) *callSpec {
